@@ -40,6 +40,7 @@ package store
 // part i is the i-th 1,000,000-byte window of the remainder and is stored under "<name>.part<i>".
 
 //@ func writeBlobParts props(C19,C07)
+//@   assigns nothing
 //@   ghost puts int = 0
 //@   call datastore.NewKey
 //@     assert[C19:part-key-is-name-dot-part-i] arg1 == "blobParts" && arg2 == sprintf("%s.part%d", blobName, i) && arg2 == ID
@@ -59,6 +60,7 @@ package store
 //@     invariant[C19:names-in-order] forall(j, 0, i, partNames[j] == sprintf("%s.part%d", blobName, j))
 
 //@ func newBlob props(C19,C07)
+//@   assigns nothing
 //@   call writeBlobParts
 //@     assert[C19:remainder-goes-to-parts] base(arg1) == base(bytes) && off(arg1) == off(bytes) + 1000000 && len(arg1) == len(bytes) - 1000000 && arg2 == blobName
 //@   ensures[C19:small-blob-inline] r1 == nil && len(bytes) < 1000000 ==> r0 != nil && r0.Inlined == bytes && len(r0.Parts) == 0
@@ -75,3 +77,63 @@ package store
 //@   ensures[C19:inline-only] len(old(bp.Parts)) == 0 ==> r1 == nil && r0 == old(bp.Inlined)
 //@   loop 1
 //@     invariant[C19:keys-in-order] len(keys) == idx + 1 && len(parts) == idx + 1 && fetched == 0 && forall(j, 0, idx + 1, keyKind(keys[j]) == "blobParts" && keyName(keys[j]) == bp.Parts[j])
+
+// ---- stored requests and responses (C19): each direction has its own blob name and its own datastore key ----
+// The blob of a request is named "<request id>.request", that of a response "<request id>.response": the overflow parts
+// of the two directions of one exchange can never land on the same part keys. Records are written and read under the
+// ids they carry.
+//@ func newStoredRequest props(C19,C07)
+//@   requires r != nil
+//@   ghost blobs int = 0
+//@   ghost puts int = 0
+//@   call newBlob
+//@     assert[C19:request-blob-named-for-this-request-and-direction] blobs == 0 && arg1 == r.Contents && arg2 == sprintf("%s.request", r.RequestID)
+//@     do blobs = blobs + 1
+//@   call datastore.Put
+//@     assert[C19:request-record-stored-under-its-backend-and-request-id] puts == 0 && blobs == 1 && keyKind(arg1) == sprintf("%s%q", "req:", r.BackendID) && keyName(arg1) == r.RequestID
+//@     |   && arg2 == box(sr) && sr.BackendID == r.BackendID && sr.RequestID == r.RequestID && sr.User == r.User && sr.Completed == r.Completed
+//@     do puts = puts + 1
+//@   ensures[C19:request-record-written-once] r1 == nil ==> puts == 1 && r0 != nil && r0.BackendID == r.BackendID && r0.RequestID == r.RequestID
+
+//@ func newStoredResponse props(C19,C07)
+//@   requires r != nil
+//@   ghost blobs int = 0
+//@   ghost puts int = 0
+//@   call newBlob
+//@     assert[C19:response-blob-named-for-this-request-and-direction] blobs == 0 && arg1 == r.Contents && arg2 == sprintf("%s.response", r.RequestID)
+//@     do blobs = blobs + 1
+//@   call datastore.Put
+//@     assert[C19:response-record-stored-under-its-request-id] puts == 0 && blobs == 1 && keyKind(arg1) == "response" && keyName(arg1) == r.RequestID
+//@     |   && arg2 == box(sr) && sr.BackendID == r.BackendID && sr.RequestID == r.RequestID && sr.ResponseSize == len(r.Contents)
+//@     do puts = puts + 1
+//@   ensures[C19:response-record-written-once] r1 == nil ==> puts == 1 && r0 != nil && r0.BackendID == r.BackendID && r0.RequestID == r.RequestID
+
+//@ func readStoredRequest props(C19,C07)
+//@   ghost gets int = 0
+//@   call datastore.Get
+//@     assert[C19:request-record-read-under-the-named-ids] gets == 0 && keyKind(arg1) == sprintf("%s%q", "req:", backendID) && keyName(arg1) == requestID
+//@     do gets = gets + 1
+//@ func readStoredResponse props(C19,C07)
+//@   ghost gets int = 0
+//@   call datastore.Get
+//@     assert[C19:response-record-read-under-the-named-request-id] gets == 0 && keyKind(arg1) == "response" && keyName(arg1) == requestID
+//@     do gets = gets + 1
+
+//@ func (*storedRequest).toRequest props(C19,C07)
+//@   requires r != nil
+//@   ghost reads int = 0
+//@   ghost got []byte
+//@   call (*blob).read
+//@     assert[C19:request-bytes-read-from-its-own-blob] reads == 0 && arg0 == &r.RequestBytes
+//@     do got = ret0
+//@     do reads = reads + 1
+//@   ensures[C19:request-rebuilt-from-its-record] r1 == nil ==> r0 != nil && r0.BackendID == r.BackendID && r0.RequestID == r.RequestID && r0.User == r.User && r0.Completed == r.Completed && r0.Contents == got && reads == 1
+//@ func (*storedResponse).toResponse props(C19,C07)
+//@   requires r != nil
+//@   ghost reads int = 0
+//@   ghost got []byte
+//@   call (*blob).read
+//@     assert[C19:response-bytes-read-from-its-own-blob] reads == 0 && arg0 == &r.ResponseBytes
+//@     do got = ret0
+//@     do reads = reads + 1
+//@   ensures[C19:response-rebuilt-from-its-record] r1 == nil ==> r0 != nil && r0.BackendID == r.BackendID && r0.RequestID == r.RequestID && r0.Contents == got && reads == 1
